@@ -50,3 +50,9 @@ Theorem C08_text_is_concatenation_of_all_character_data : forall ns kids,
   fold_right String.append "" (map (fun n => match n with Text s => cr_normalise s | _ => "" end) kids).
 Proof. exact text_of_view_kids. Qed.
 Print Assumptions C08_text_is_concatenation_of_all_character_data.
+
+(* ---- the decode schema extracted from /repo's struct tags on this run IS the SAML-core binding table ---- *)
+From V Require Import SchemaDefs Generated SamlSchema P_SamlSchema.
+Theorem C08_decode_schema_is_saml_core : xml_schema = saml_core_schema.
+Proof. exact schema_is_saml_core. Qed.
+Print Assumptions C08_decode_schema_is_saml_core.
